@@ -238,6 +238,44 @@ def run(ctx):
     ctx.coverage["fold_disagreements_model"] = len(bad)
     if bad and not ctx.violations:
         ctx.broke("K", "tir/ceval.rs vs model/Ceval.v", "model and implementation differ on %d constant expressions; first:\n%s" % (len(bad), pool.describe_mismatch(bad[0])))
+    # ---------------- 2b'. casts of constants and cast chains: whatever is evaluated statically must be the value static_cast gives
+    cpool = tircheck.Pool(ctx)
+    cmeta = []
+    catoms = [("int", v) for v in (0, 1, 2, 100, 2 ** 31 - 1, 2 ** 31, 3000000000, 2 ** 32 - 1, 2 ** 32, 2 ** 40 + 5)] + \
+             [("unary", "-", ("int", v)) for v in (1, 2, 2 ** 31, 2 ** 31 + 1, 2 ** 32)] + \
+             [("float", t) for t in ("0.0", "2.9", "1e10", "4294967295.5")] + [("unary", "-", ("float", "2.9")), ("bool", True), ("bool", False)]
+    ctypes = [["int"], ["uint"], ["double"], ["bool"]]
+    for a in catoms:
+        for t1 in ctypes:
+            cpool.add([(("binding_expr", ("as", a, t1)), "const-cast")])
+            cmeta.append((a, [t1[0]]))
+            for t2 in ctypes:
+                if thorough or rng.random() < 0.5:
+                    cpool.add([(("binding_expr", ("as", ("as", a, t1), t2)), "const-cast-chain")])
+                    cmeta.append((a, [t1[0], t2[0]]))
+    cpool.run()
+    for i, ((a, chain), e) in enumerate(zip(cmeta, cpool.expected)):
+        ctx.count(("ccast", cpool.sources[i]), True)
+        r = cpool.impl[i]
+        if e is None:
+            ctx.violation("constant cast crashes the builder: %r" % (r,), {"case": cpool.sources[i], "impl_output": r})
+            continue
+        ev = r.get("eval") if isinstance(r, dict) else None
+        if not isinstance(ev, dict):
+            continue
+        want = oracle_cast_chain(a, chain)
+        got = ev.get("int") if "int" in ev else (ev.get("bool") if "bool" in ev else (struct.unpack("<d", struct.pack("<Q", ev["float"]))[0] if "float" in ev else ev))
+        if len(chain) == 1 and chain[0] in ("int", "uint") and isinstance(got, int) and not isinstance(got, bool) and oracle_cast_chain(a, []) == got:
+            continue      # an integer literal copied into an int / uint: the number is written as spelled and narrowed by the C++ compiler exactly as the cast would
+        if len(chain) == 2 and chain[0] in ("int", "uint") and chain[1] == chain[0] and isinstance(got, int) and not isinstance(got, bool) and oracle_cast_chain(a, []) == got:
+            continue
+        if want is UNDEF or got != want or isinstance(got, bool) != isinstance(want, bool):
+            ctx.violation("the constant %s is evaluated statically to %r; static_cast gives %s" % (cpool.sources[i], got, "no defined value" if want is UNDEF else repr(want)),
+                          {"case": cpool.sources[i], "impl_output": ev, "oracle_output": None if want is UNDEF else want, "theorem_or_correspondence": "S: C++ conversion rules on constants"})
+    cbad = cpool.compare_model() if ctx.model_ok else []
+    ctx.coverage["constant_cast_disagreements_model"] = len(cbad)
+    if cbad and not ctx.violations:
+        ctx.broke("K", "tir/interpret.rs + builder vs model on constant casts", "model and implementation differ on %d constant casts; first:\n%s" % (len(cbad), cpool.describe_mismatch(cbad[0])))
     # ---------------- 2c. block-bodied constant bindings: let/const, reassignment, element writes, nested blocks, early return
     bpool = tircheck.Pool(ctx)
     bmeta = []
@@ -300,6 +338,43 @@ FIXED_BLOCKS = [
     ([("decl", "let", [("n", None, ("int", 1))]), ("block", [("decl", "let", [("n", None, ("int", 5))]), ("expr", ("assign", ("ident", "n"), ("int", 2)))]), ("return", ("ident", "n"))], 1),
     ([("decl", "let", [("a", None, ("array", [("str", "x"), ("str", "y")]))]), ("expr", ("assign", ("sub", ("ident", "a"), ("int", 5)), ("str", "z"))), ("return", ("ident", "a"))], UNDEF),
 ]
+
+
+def oracle_cast_chain(atom, chain):
+    """value of ((atom as T1) as T2 ...) under the C++ conversions the generated code performs (two's complement narrowing, truncation toward zero;
+    a floating value outside the target range has no defined result)"""
+    def lit(a):
+        if a[0] == "int":
+            return ("lit", a[1])
+        if a[0] == "float":
+            return ("double", float(a[1]))
+        if a[0] == "bool":
+            return ("bool", a[1])
+        if a[0] == "unary":
+            k, v = lit(a[2])
+            return (k, -v)
+    k, v = lit(atom)
+    for t in chain:
+        if t == "bool":
+            if k != "bool":
+                return UNDEF          # not a documented cast: must not be evaluated at all
+            continue
+        if t == "double":
+            v = float(int(v)) if k != "double" else v
+            k = "double"
+        else:
+            if k == "double":
+                tv = int(v)           # truncation toward zero
+                lo, hi = (-2 ** 31, 2 ** 31 - 1) if t == "int" else (0, 2 ** 32 - 1)
+                if not lo <= tv <= hi:
+                    return UNDEF
+                v = tv
+            else:
+                v = int(v) % 2 ** 32
+                if t == "int" and v >= 2 ** 31:
+                    v -= 2 ** 32
+            k = t
+    return v
 
 
 def block_program(rng, fixed=None):
